@@ -246,6 +246,19 @@ def make_problem(scn, cap=None, fault=None):
 
 
 def make_params(scn):
+    """How the user fills in the public SolverParameters object is part of the scenario: constructor keywords,
+    positional constructor arguments, or attribute assignment on a default-constructed object."""
+    how = scn.get("params_how", "ctor")
+    if how == "assign":
+        p = SolverParameters()
+        p.eps = scn["eps"]
+        p.r = scn["r"]
+        p.itersLimit = scn["iters"]
+        p.evolventDensity = scn["m"]
+        p.refineSolution = bool(scn.get("refine", False))
+        return p
+    if how == "positional":
+        return SolverParameters(scn["eps"], scn["r"], scn["iters"], scn["m"], 0.001, bool(scn.get("refine", False)))
     return SolverParameters(eps=scn["eps"], r=scn["r"], itersLimit=scn["iters"], evolventDensity=scn["m"],
                             refineSolution=bool(scn.get("refine", False)))
 
